@@ -4,6 +4,7 @@ import (
 	"bytes"
 	"encoding/json"
 	"fmt"
+	"github.com/nats-io/nkeys"
 	"reflect"
 	"strings"
 	"time"
@@ -324,6 +325,25 @@ func setAt(root interface{}, path jpath, v interface{}) interface{} {
 var hostileStrings = []string{".", "..", "$", "$1", "a..$1", ".$1", "$1.", "a.$.b", "$$", "*", ">", ">.a", "a b c", " ", "*.>", "a.*.$2.>",
 	"-", "S", "SU", strings.Repeat("x.", 300) + "$1", "\x00", "é.$1..", "local..$1"}
 
+// well-formed nkeys (valid prefix byte and CRC16) whose key body is not 32 bytes: every prefix check accepts them
+var keyShapedStrings = func() []string {
+	var out []string
+	for _, pre := range []nkeys.PrefixByte{nkeys.PrefixByteAccount, nkeys.PrefixByteOperator, nkeys.PrefixByteUser, nkeys.PrefixByteServer, nkeys.PrefixByteCurve} {
+		for _, n := range []int{1, 16, 33} {
+			body := make([]byte, n)
+			for i := range body {
+				body[i] = byte(17*i + 3)
+			}
+			if k, err := nkeys.Encode(pre, body); err == nil {
+				out = append(out, string(k))
+			}
+		}
+	}
+	return out
+}()
+
+func init() { hostileStrings = append(hostileStrings, keyShapedStrings...) }
+
 func nodeAt(root interface{}, path jpath) interface{} {
 	cur := root
 	for _, p := range path {
@@ -403,9 +423,14 @@ func runC11(c *Ctx) {
 				}
 				// string-valued nodes additionally take hostile strings (subjects with empty tokens, "$" references,
 				// wildcards and blanks in odd places, over-long text)
-				if _, isStr := nodeAt(tree, p).(string); isStr {
+				if orig, isStr := nodeAt(tree, p).(string); isStr {
 					for hi, hs := range hostileStrings {
-						if !c.thorough() && (hi+len(muts)+len(p)+b)%3 != 0 {
+						if keyShaped := hi >= len(hostileStrings)-len(keyShapedStrings); keyShaped && !c.thorough() {
+							// quick tier: key-shaped strings where a key stands (and at every top-level text field)
+							if !(len(p) == 1 || nkeys.IsValidPublicKey(orig)) || (hi+b)%2 != 0 {
+								continue
+							}
+						} else if !c.thorough() && (hi+len(muts)+len(p)+b)%3 != 0 {
 							continue // quick tier: a rotating third of the hostile strings per node
 						}
 						muts = append(muts, struct {
